@@ -339,7 +339,7 @@ CONSTANTS Source = "{source}"
   Ks = {ks}
   Indents = {inds}
   BlankCounts = {{0, 1, 2}}
-  RstLineNotConverted = {"FALSE" if os.environ.get("VERIF_C16_MODEL") == "fixed" else "TRUE"}
+  RstLineNotConverted = {"TRUE" if os.environ.get("VERIF_C16_MODEL") == "prefix" else "FALSE"}
 CONSTRAINT Emit
 {inv}"""
 
